@@ -335,6 +335,28 @@ func c07Jobs(x *mon.Ctx, base *world.World) []*world.Case {
 		w.Qe.Levels = ls
 		emit(w, "level-without-status", fmt.Sprint(i), "reject")
 	}
+	// level numbers are JSON numbers, wider than the report's 16-bit field: a level numbered k*65536 + v (v not above the
+	// report's ISVSVN) is above the report's ISVSVN like any other larger number
+	{
+		isv := uint32(base.P.QeIsvSvn)
+		var lists [][]world.IsvLevel
+		for _, big := range []uint32{65536, 65536 + isv, 131072 + isv/2, 1 << 24, 1<<31 + isv, 0xffff0000 + isv, 0xffff0000} {
+			lists = append(lists,
+				[]world.IsvLevel{{Isv: big, Status: "UpToDate"}, {Isv: isv, Status: "OutOfDate"}},
+				[]world.IsvLevel{{Isv: big, Status: "UpToDate"}},
+				[]world.IsvLevel{{Isv: big, Status: "UpToDate"}, {Isv: 0, Status: "Revoked"}},
+				[]world.IsvLevel{{Isv: big, Status: "OutOfDate"}, {Isv: isv, Status: "UpToDate"}})
+		}
+		for i, ls := range lists {
+			w := base.Clone()
+			w.Qe.Levels = ls
+			exp := "reject"
+			if i%4 == 3 {
+				exp = "accept"
+			}
+			emit(w, "level-isvsvn-above-16-bits", fmt.Sprint(i), exp)
+		}
+	}
 	// an incomplete signed identity (its matching level has no status, or it has no isvprodid) served together with an unsigned
 	// member that supplies what is missing: only what is signed counts
 	for name, mod := range map[string]func(w *world.World){
@@ -471,6 +493,7 @@ func c07(x *mon.Ctx) {
 	x.Require("attributes-bit-hidden-by-mask", 128, 0, 128)
 	x.Require("mrsigner-bit", 0, 256, 256)
 	x.Require("level-without-status", 0, 6, 6)
+	x.Require("level-isvsvn-above-16-bits", 7, 21, 28)
 	x.Require("deciding-level-with-odd-tcbdate", 0, 27, 36)
 	x.Require("unsigned-member-completes-signed-identity", 0, 30, 30)
 	x.Require("message-isvsvn-wider-than-signed", 0, 6, 6)
